@@ -380,6 +380,26 @@ func genC01Scopes(g *G, id int) C01Case {
 		if g.coin(0.3) {
 			inner = Rule{Not: &Rule{Atom: inner.Atom}}
 		}
+		if g.coin(0.5) {
+			// compound inner formulas: several failure branches per reached node, partially satisfied conjunctions
+			a, b, c2 := Rule{Atom: ip(0)}, Rule{Atom: ip(1)}, Rule{Atom: ip(2)}
+			nb := Rule{Not: &Rule{Atom: ip(1)}}
+			switch g.n(6) {
+			case 0:
+				inner = Rule{Or: []Rule{{And: []Rule{a, b}}, c2}}
+			case 1:
+				inner = Rule{And: []Rule{{Or: []Rule{a, c2}}, {Or: []Rule{b, c2}}}}
+			case 2:
+				inner = Rule{If: &a, Then: &b, Else: &c2}
+			case 3:
+				inner = Rule{Or: []Rule{{And: []Rule{a, nb}}, {And: []Rule{b, c2}}}}
+			case 4:
+				in2 := Rule{Or: []Rule{{And: []Rule{a, b}}, c2}}
+				inner = Rule{Not: &in2}
+			default:
+				inner = Rule{Or: []Rule{{If: &a, Then: &c2}, {And: []Rule{b, a}}}}
+			}
+		}
 		r := Rule{Nested: &inner, PathIx: ip(k)}
 		if g.coin(0.4) {
 			r.Q = &Quant{Op: g.pick([]string{"ge", "le", "eq"}), K: g.n(3)}
